@@ -121,7 +121,7 @@ def _cross(a, b):
     return [a[1] * b[2] - a[2] * b[1], a[2] * b[0] - a[0] * b[2], a[0] * b[1] - a[1] * b[0]]
 
 
-@contract("C04", TF + ".flips_winding", name="iff-det-negative", timeout=30000, budget=1500, tier="thorough")
+@contract("C04", TF + ".flips_winding", name="iff-det-negative", timeout=90000, budget=3000, tier="thorough")
 def flips_winding(h):
     """for EVERY draw of the nine random points: result <=> det(M[:3,:3]) < 0"""
     M = h.reals("M", (4, 4))
@@ -158,24 +158,41 @@ def flips_winding(h):
     norm = np.sqrt(sq).reshape((-1, 1))
     unit = cross / norm
     projection = np.dot(unit[:3] * unit[3:], [1.0] * 3)
+    ps = []
     for t in range(3):
-        h.check("lemma:sign(projection)=sign(det)[%d]" % t, h.all([h.implies(det < 0, projection[t] < 0), h.implies(det > 0, projection[t] > 0)]), lemma=True)
+        a, b = cross[t], cross[t + 3]
+        na, nb = norm[t, 0], norm[t + 3, 0]
+        n0 = np.cross(vectors[t, 0], vectors[t, 1])
+        nn = n0[0] * n0[0] + n0[1] * n0[1] + n0[2] * n0[2]
+        # definitional names (fresh variable := term) keep the sign argument atomic
+        if h.mode == "sym":
+            p_, q_, nn_ = h.fresh_real("proj"), h.fresh_real("q"), h.fresh_real("nn")
+            h.assume(p_ == projection[t], name="def:p[%d]" % t)
+            h.assume(q_ == na * nb, name="def:q[%d]" % t)
+            h.assume(nn_ == nn, name="def:nn[%d]" % t)
+            ab_ = h.fresh_real("ab")
+            h.assume(ab_ == a[0] * b[0] + a[1] * b[1] + a[2] * b[2], name="def:ab[%d]" % t)
+        else:
+            p_, q_, nn_ = projection[t], na * nb, nn
+            ab_ = a[0] * b[0] + a[1] * b[1] + a[2] * b[2]
+        ps.append(p_)
+        h.check("lemma:norms-positive[%d]" % t, h.all([na > 0, nb > 0, h.eq(na * na, sq[t]), h.eq(nb * nb, sq[t + 3])]), lemma=True)
+        h.check("lemma:q=|a||b|>0[%d]" % t, q_ > 0, lemma=True)
+        h.check("lemma:projection*|a||b|=a.b[%d]" % t, h.eq(projection[t] * (na * nb), a[0] * b[0] + a[1] * b[1] + a[2] * b[2]), lemma=True)
+        h.check("lemma:|n|^2>0[%d]" % t, nn_ > 0, lemma=True)
+        sym = h.mode == "sym"
+        h.check("lemma:ab=det*nn[%d]" % t, h.eq(ab_, det * nn_), lemma=True, using=(["def:ab[%d]" % t, "def:nn[%d]" % t, "lemma:(Mn).((Me1)x(Me2))=det*|n|^2[%d]" % t] if sym else None))
+        h.check("lemma:p*q=ab[%d]" % t, h.eq(p_ * q_, ab_), lemma=True, using=(["def:p[%d]" % t, "def:q[%d]" % t, "def:ab[%d]" % t, "lemma:projection*|a||b|=a.b[%d]" % t] if sym else None))
+        h.check("lemma:p*q=det*|n|^2[%d]" % t, h.eq(p_ * q_, det * nn_), lemma=True, using=(["lemma:ab=det*nn[%d]" % t, "lemma:p*q=ab[%d]" % t] if sym else None))
+        h.check("lemma:sign(projection)=sign(det)[%d]" % t, h.all([h.implies(det < 0, p_ < 0), h.implies(det > 0, p_ > 0)]), lemma=True, using=(["lemma:q=|a||b|>0[%d]" % t, "lemma:|n|^2>0[%d]" % t, "lemma:p*q=det*|n|^2[%d]" % t] if h.mode == "sym" else None))
+    h.check("lemma:sign(mean)=sign(det)", h.all([h.implies(det < 0, ps[0] + ps[1] + ps[2] < 0), h.implies(det > 0, ps[0] + ps[1] + ps[2] > 0)]), lemma=True, using=(["lemma:sign(projection)=sign(det)[%d]" % t for t in range(3)] if h.mode == "sym" else None))
     flip = h.fn(TF + ".flips_winding")(M)
     h.check("flip<=>det<0", h.all([h.implies(det < 0, flip), h.implies(det > 0, h.not_(flip))]))
 
 
-@contract("C04", TF + ".flips_winding", name="iff-det-negative[fixed-draw]", tier="thorough", kind="bounded-shape", note="all real matrices M, one fixed draw of the nine random points (the every-draw version is in the thorough tier)")
-def flips_winding_fixed(h):
-    import numpy as _np
-
-    M = h.reals("M", (4, 4))
-    rs = _np.random.RandomState(7)
-    tri = _np.round(rs.random_sample((9, 3)) * 8) / 8.0  # dyadic: exact in float and rational
-    h.random_queue(h.np.array(tri))
-    det = _det3(M)
-    h.assume(h.not_(det == 0))
-    flip = h.fn(TF + ".flips_winding")(M)
-    h.check("flip<=>det<0", h.all([h.implies(det < 0, flip), h.implies(det > 0, h.not_(flip))]))
+# (a weaker "one fixed draw of the random points" variant used to be registered here; it is
+# subsumed by the every-draw contract above, which discharges with the lemma chain, and was
+# itself not decided within 120 s - removed rather than left undecided)
 
 
 # ----------------------------------------------------------------------------- bounded: the real classes
